@@ -132,7 +132,9 @@ func runValDecision(c *core.Ctx) {
 			as, ok := n.(*ast.AssignStmt)
 			return ok && len(as.Lhs) == 1 && len(as.Rhs) == 1 && as.Tok == token.ASSIGN && an.ObjOf(info, as.Lhs[0]) != nil && an.ObjOf(info, as.Lhs[0]).Name() == "idx2Val"
 		}, bools: []string{"$.clock==nil", "other.clock==nil", "it.Done()", "ok"}, ints: map[string]string{"self.clock.Len()": "", "other.clock.Len()": ""},
-			ref: func(a dtAtoms) bool { return !a.B("$.clock==nil") && !a.B("other.clock==nil") && !a.B("it.Done()") && !a.B("ok") }},
+			ref: func(a dtAtoms) bool {
+				return !a.B("$.clock==nil") && !a.B("other.clock==nil") && !a.B("it.Done()") && !a.B("ok")
+			}},
 		{fn: "VClock.Get", key: "absent-reads-zero", why: "an absent component reads 0", find: func(info *types.Info, n ast.Node) bool {
 			r, ok := n.(*ast.ReturnStmt)
 			if !ok || len(r.Results) != 1 {
